@@ -229,6 +229,18 @@ theorem TimInv.stopTiming {tm : Timer} {ths : List (Nat × Th)} (h : TimInv tm t
     obtain ⟨d, hd⟩ := lastIdxOf_spec hl
     exact h.erase i t d hd _ (fun _ => by simp) _ rfl
 
+/-- `Stop()` of a `timing` thread, with any record update that leaves `timing` -/
+theorem TimInv.erase_via_remove {tm : Timer} {ths : List (Nat × Th)} (h : TimInv tm ths) (t : Nat) (th : Th)
+    (hth : thFind ths t = some th) (hts : th.ts = .timing) (f : Th → Th) (hnew : ∀ th, (f th).ts ≠ .timing) :
+    TimInv (tm.remove t) (ths.map (thUpd t f)) := by
+  unfold Timer.remove
+  cases hl : Timer.lastIdxOf tm.elems t with
+  | none =>
+    exact absurd (h.t3 t th hth hts) (lastIdxOf_none hl)
+  | some i =>
+    obtain ⟨d, hd⟩ := lastIdxOf_spec hl
+    exact h.erase i t d hd f hnew _ rfl
+
 /-- `AddTiming` of a thread that is not `timing` -/
 theorem TimInv.start {tm : Timer} {ths : List (Nat × Th)} (h : TimInv tm ths) (t due : Nat) (th : Th)
     (hth : thFind ths t = some th) (hts : th.ts ≠ .timing) :
